@@ -41,8 +41,12 @@ def bq_packer(ctx, rule):
             src = strip(src[2])
         ok_w = src[0] == 'call' and src[1].endswith('<impl u64>::to_ne_bytes')
         # once per outer iteration: every path from the outer `next` back to itself passes the write
+        def recv_ty(c):
+            a0 = c.args[0] if c.args else None
+            return f.local_ty(a0['place']['l']) if a0 and a0.get('k') in ('copy', 'move') else ''
+        # the `next` of the chunk iterator itself (by receiver type), not of an iterator over one chunk's components
         outer = [c for c in f.calls() if c.callee.endswith('Iterator::next') and any(s[0] == 'call' and s[1].endswith('::chunks') for s in walk(c.arg_term(0)))
-                 and not any(s[0] == 'call' and s[1].endswith('::rev') for s in walk(c.arg_term(0)))]
+                 and 'Chunks<' in recv_ty(c)]
         if len(outer) == 1:
             ok_w = ok_w and paths.must_pass(f, outer[0].target, [outer[0].bb], [writes[0].bb])
             # and the write is not inside the inner (per-component) loop: the inner `next` does not reach it and come back without the outer
